@@ -60,6 +60,21 @@ REUSE_SECOND = ['a ;', '{ a ; }', 'function g ( ) { { b ; } }',
                 'switch ( a ) { case 1 : b ; }']
 
 
+TOWER_KINDS = [
+    '{ %s }', 'function f ( ) { %s }', 'if ( a ) { %s } else { c ; }',
+    'x = { p : function ( ) { %s } , q : 1 } ;',
+    'switch ( a ) { case 1 : %s default : d ; }',
+    'try { %s } catch ( e ) { } finally { }', 'while ( a ) { %s }',
+]
+
+
+def tower(kinds):
+    t = 'b ;'
+    for k in reversed(kinds):
+        t = k % t
+    return t
+
+
 def run(tier, rep):
     items = []
     seen = set()
@@ -86,6 +101,21 @@ def run(tier, rep):
             if t not in seen:
                 seen.add(t)
                 items.append((t, ['\t'], False))
+    # towers: one kind of container nested in itself 1..14 deep, and every
+    # alternation of two kinds 9 and 12 deep (a printer that prepares the
+    # first few levels and derives the deeper ones is only seen here)
+    ntower = 0
+    for a_ in TOWER_KINDS:
+        for d in range(1, 15):
+            items.append((tower([a_] * d), P.INDENTS[:4], False))
+            ntower += 1
+        for b_ in TOWER_KINDS:
+            if a_ != b_:
+                for d in (9, 12):
+                    items.append((tower(([a_, b_] * d)[:d]),
+                                  P.INDENTS[:4], False))
+                    ntower += 1
+    rep.space('towers', kinds=TOWER_KINDS, max_depth=14, texts=ntower)
     for t in COMMENTED:
         items.append((t, P.INDENTS[:4], True))
     # a comment of each kind in every gap of the one-constructor programs
